@@ -1009,3 +1009,4 @@ def r5(chk, repo):
 # added rules (appended to the explanation the evidence file carries)
 EXPLANATION += (" " + 'Added during the build (DESIGN.md 4.31, second table): (R12.12) the future awaited by roundtrip is created in the call and queued on every path; (R12.13) the queue is waited for only with nothing pending; the fetch guard of R12.3 generalised; wait_futures is a plain dict.')
 EXPLANATION += (' Added after wave 8: (R12.4) the index of a datagram frame is also established by abstract execution of roundtrip_packet on a new master with every random draw giving the lowest number of its range.')
+EXPLANATION += (' Added after wave 10: the done-callback of roundtrip_packet is decided by abstract execution (the entry made under the drawn index is the one the callback removes).')
